@@ -48,8 +48,10 @@ class GotranPythonCodePrinter(PythonCodePrinter):
 
     def _print_Mod(self, expr):
         # ``%`` binds like ``*`` in Python, so the expression needs
-        # parentheses when it is part of a product, quotient or power
-        return f"({super()._print_Mod(expr)})"
+        # parentheses when it is part of a product, quotient or power,
+        # and so do its arguments (``a % 1/h`` is ``(a % 1)/h``)
+        lhs, rhs = (self._print(arg) for arg in expr.args)
+        return f"(({lhs}) % ({rhs}))"
 
     def _print_Piecewise(self, expr):
         result = []
